@@ -12,7 +12,7 @@ def strategy(tier):
     from hypothesis import strategies as st
 
     return st.one_of(S.program_case(ALL_KINDS, max_steps=8 if tier == "quick" else 14, min_steps=3),
-                     S.program_case(ALL_KINDS, max_steps=8 if tier == "quick" else 14, min_steps=3), S.lifecycle_case())
+                     S.program_case(ALL_KINDS, max_steps=8 if tier == "quick" else 14, min_steps=3), S.lifecycle_case(), S.survivor_case())
 
 RULE = (
     "Histories (two thirds): worlds/layouts/states as in C01, then 3-8 (thorough: 3-14) generated steps over all public call "
